@@ -30,6 +30,20 @@ LEVEL_TEXT = ('Model checking by complete enumeration of small lattices (degener
               'down to 2^-30: every primitive call compared with its exact-arithmetic definition, plus symmetry / range / degenerate clauses.')
 LEVEL_NOTE = 'Lattice and power-of-two embeddings only; arbitrary reals are outside the bound.'
 
+_DT = [float]   # dtype in which the arguments are presented to the library (float64, or a narrow / wide integer dtype for the integer embeddings)
+IEMB = [(2 ** 16, 0, 'int32'), (2 ** 32, 0, 'int64'), (1, 2 ** 15, 'int32'), (2 ** 14, -(2 ** 29), 'int32')]
+
+
+def _case(c):
+    if _DT[0] is not float:
+        c['dtype'] = np.dtype(_DT[0]).name
+    return c
+
+
+def _setdt(name):
+    _DT[0] = float if not name else getattr(np, name)
+
+
 EMB = [(1.0, 0.0), (1.0, 2.0 ** 20), (2.0 ** -30, 0.0), (2.0 ** 10, -(2.0 ** 20)), (1.0, 2.0 ** 17 + 3)]
 
 
@@ -43,16 +57,26 @@ def units(tier, seed):
             u.append(('seg', lat, emb, k, K))
             u.append(('tri', lat, emb, k, K))
             u.append(('rect', lat, emb, k, K))
+    for emb in IEMB:
+        K = 4 if tier == 'quick' else 16
+        for k in range(K):
+            u.append(('seg', lat, emb, k, K))
+            u.append(('tri', lat, emb, k, K))
+            u.append(('rect', lat, emb, k, K))
     plan = [('A', 3, 1), ('A', 4, 8), ('A1', 5, 2), ('A1', 6, 8)] if tier == 'quick' else [('A', 4, 8), ('A', 5, 64), ('A1', 6, 8), ('A1', 7, 16), ('A1', 8, 64), ('A12', 6, 128)]
     for prof, n, K in plan:
         for k in range(K):
             u.append(('sub', prof, n, k, K))
+    for prof, n, K in plan[:2]:
+        for k in range(K):
+            for emb in IEMB[:2]:
+                u.append(('sub', prof, n, k, K, emb))
     u.append(('vec', 5 if tier == 'quick' else 6))
     return u
 
 
 def emb_pt(p, emb):
-    s, sh = emb
+    s, sh = emb[0], emb[1]
     return (p[0] * s + sh, p[1] * s + sh)
 
 
@@ -100,10 +124,10 @@ def fsqrt(q):
 def check_segment(a, b, P):
     """shortest / perpendicular distance of all points P to segment / line a-b."""
     out = []
-    pts = np.array(P, dtype=float)
-    A, Bp = np.array(a, dtype=float), np.array(b, dtype=float)
+    pts = np.array(P, dtype=_DT[0])
+    A, Bp = np.array(a, dtype=_DT[0]), np.array(b, dtype=_DT[0])
     scale = max(abs(a[0] - b[0]), abs(a[1] - b[1]), max(max(abs(p[0] - a[0]), abs(p[1] - a[1])) for p in P), 1e-300)
-    case = {'oracle': 'segment', 'a': list(a), 'b': list(b), 'points': [list(p) for p in P]}
+    case = _case({'oracle': 'segment', 'a': list(a), 'b': list(b), 'points': [list(p) for p in P]})
     key = 'a=%s b=%s' % (list(a), list(b))
     try:
         got = np.asarray(lf.shortest_distance_points(pts, A, Bp), dtype=float).tolist()
@@ -138,10 +162,10 @@ def menger_exact_sq(f, g, h):
 
 
 def check_triple(f, g, h):
-    case = {'oracle': 'triple', 'f': list(f), 'g': list(g), 'h': list(h)}
+    case = _case({'oracle': 'triple', 'f': list(f), 'g': list(g), 'h': list(h)})
     key = 'f=%s g=%s h=%s' % (list(f), list(g), list(h))
     try:
-        got = float(menger.menger_curvature(np.array(f, dtype=float), np.array(g, dtype=float), np.array(h, dtype=float)))
+        got = float(menger.menger_curvature(np.array(f, dtype=_DT[0]), np.array(g, dtype=_DT[0]), np.array(h, dtype=_DT[0])))
     except Exception as e:  # noqa: BLE001
         return [Failure('menger.menger_curvature', lib.exc_kind(e), key, case, repr(e), (0, 0))]
     e2 = menger_exact_sq(f, g, h)
@@ -167,9 +191,9 @@ def rect_exact(amin, amax, bmin, bmax):
 
 
 def check_rect(amin, amax, bmin, bmax):
-    case = {'oracle': 'rect', 'amin': list(amin), 'amax': list(amax), 'bmin': list(bmin), 'bmax': list(bmax)}
+    case = _case({'oracle': 'rect', 'amin': list(amin), 'amax': list(amax), 'bmin': list(bmin), 'bmax': list(bmax)})
     key = 'A=[%s,%s] B=[%s,%s]' % (list(amin), list(amax), list(bmin), list(bmax))
-    arr = [np.array(v, dtype=float) for v in (amin, amax, bmin, bmax)]
+    arr = [np.array(v, dtype=_DT[0]) for v in (amin, amax, bmin, bmax)]
     try:
         got = float(kr.rect_overlap(*arr))
         sym = float(kr.rect_overlap(arr[2], arr[3], arr[0], arr[1]))
@@ -192,9 +216,9 @@ def check_rect(amin, amax, bmin, bmax):
 
 
 def check_subrange(xs, ys, l, r):
-    pts = curves.points(xs, ys)
+    pts = curves.points(xs, ys) if _DT[0] is float else np.array(list(zip(xs, ys)), dtype=_DT[0])
     n = len(xs)
-    case = {'oracle': 'sub', 'x': list(xs), 'y': list(ys), 'l': l, 'r': r}
+    case = _case({'oracle': 'sub', 'x': list(xs), 'y': list(ys), 'l': l, 'r': r})
     key = '%s left=%d right=%d' % (lib.pts_key(xs, ys), l, r)
     out = []
     P = [(xs[i], ys[i]) for i in range(l, r + 1)]
@@ -259,8 +283,10 @@ def check_vector(v):
 
 def run_unit(unit, res):
     kind = unit[0]
+    _setdt(None)
     if kind in ('seg', 'tri', 'rect'):
         _, lat, emb, k, K = unit
+        _setdt(emb[2] if len(emb) > 2 else None)
         L = [(x, y) for x in lat for y in lat]
         E = [emb_pt(p, emb) for p in L]
         if kind == 'seg':
@@ -307,7 +333,6 @@ def run_unit(unit, res):
         else:
             ivs = [(a, b) for a in lat for b in lat if a <= b]
             rects = [((x0, y0), (x1, y1)) for (x0, x1) in ivs for (y0, y1) in ivs]
-            s, sh = emb
             for idx, (ra, rb) in enumerate(itertools.product(rects, rects)):
                 if idx % K != k:
                     continue
@@ -327,9 +352,15 @@ def run_unit(unit, res):
                         res.fail(Failure('knee_ranking.rect_overlap', 'identical-rectangles-not-1', 'A=B=[%s,%s]' % (amin, amax),
                                          {'oracle': 'rect', 'amin': amin, 'amax': amax, 'bmin': bmin, 'bmax': bmax}, '', (0, 0)))
     elif kind == 'sub':
-        _, prof, n, k, K = unit
+        _, prof, n, k, K = unit[:5]
+        semb = unit[5] if len(unit) > 5 else None
+        _setdt(semb[2] if semb else None)
         P = curves.get(prof)
         for i, xs, ys in P.shard(n, k, K):
+            if semb:
+                if any(v != int(v) for v in list(xs) + list(ys)):
+                    continue
+                xs, ys = [int(v) * semb[0] + semb[1] for v in xs], [int(v) * semb[0] + semb[1] for v in ys]
             for l in range(n):
                 for r in range(l + 1, n):
                     fs = check_subrange(xs, ys, l, r)
@@ -361,6 +392,7 @@ def run_unit(unit, res):
 
 def replay(case):
     o = case['oracle']
+    _setdt(case.get('dtype'))
     T = lambda p: tuple(p)
     if o == 'segment':
         return check_segment(T(case['a']), T(case['b']), [T(p) for p in case['points']])
